@@ -116,8 +116,8 @@ func c07SetPayload(recvTy string) func(t *irT, s ast.Stmt, env *irEnv) ([]irLet,
 func c07FetchSpec(name, recvTy, stdTy, stdField string) *irSpec {
 	return &irSpec{
 		Name:    name,
-		Binders: "(dflt : Int) (maxPayloadSize : Int) (s : Src)",
-		BNames:  []string{"dflt", "maxPayloadSize", "s"},
+		Binders: "(dflt : Int) (maxPayloadSize : Int) (failing : Bool) (s : Src)",
+		BNames:  []string{"dflt", "maxPayloadSize", "failing", "s"},
 		RetTy:   "Pay × Err",
 		Recv:    irTerm{"s", recvTy},
 		Params:  []irTerm{{"maxPayloadSize", "Int"}},
@@ -127,7 +127,7 @@ func c07FetchSpec(name, recvTy, stdTy, stdField string) *irSpec {
 		Fields: map[string]irField{
 			recvTy + "." + stdField:  {Fmt: "%s", Ty: stdTy},
 			stdTy + ".ContentLength": {Fmt: "%s.declared", Ty: "Int"},
-			stdTy + ".Body":          {Fmt: "(Rd.mk %s rd)", Ty: "Body"},
+			stdTy + ".Body":          {Fmt: "(Rd.mk %s rd failing)", Ty: "Body"},
 			stdTy + ".Request":       {Fmt: "reqMethod", Ty: "ReqPtr"},
 			"ReqPtr.Method":          {Fmt: "(%s.getD \"\")", Ty: "String"},
 			recvTy + ".stream":       {Fmt: "pay", Ty: "Pay", State: true},
@@ -250,12 +250,12 @@ func init() {
 		// ---- Request.FetchPayload
 		s := c07FetchSpec("fetchReqIR", "Request", "StdReq", "Request")
 		if err := irEmit(r, w, "pkg/protocols/httpprot/request.go", "Request", "FetchPayload", s,
-			"`s` is the body source behind `stdr.Body`; `rd` counts the bytes consumed so far; result = (payload state, returned error)."); err != nil {
+			"`s` is the body source behind `stdr.Body`, `failing` how its reader ends (io.EOF / io.ErrUnexpectedEOF); `rd` counts the bytes consumed so far; result = (payload state, returned error)."); err != nil {
 			return err
 		}
 		// ---- Response.FetchPayload
 		s = c07FetchSpec("fetchRespIR", "Response", "StdResp", "Response")
-		s.Binders, s.BNames = "(dflt : Int) (maxPayloadSize : Int) (reqMethod : Option String) (s : Src)", []string{"dflt", "maxPayloadSize", "reqMethod", "s"}
+		s.Binders, s.BNames = "(dflt : Int) (maxPayloadSize : Int) (reqMethod : Option String) (failing : Bool) (s : Src)", []string{"dflt", "maxPayloadSize", "reqMethod", "failing", "s"}
 		if err := irEmit(r, w, "pkg/protocols/httpprot/response.go", "Response", "FetchPayload", s,
 			"`reqMethod` is `stdr.Request` (none = nil) reduced to its method."); err != nil {
 			return err
@@ -272,8 +272,8 @@ func init() {
 		}
 		ms := &irSpec{
 			Name:    "serveIR",
-			Binders: "(dflt pathLimit serverLimit : Int) (gf : Option Unit) (s : Src)",
-			BNames:  []string{"dflt", "pathLimit", "serverLimit", "gf", "s"},
+			Binders: "(dflt pathLimit serverLimit : Int) (gf : Option Unit) (failing : Bool) (s : Src)",
+			BNames:  []string{"dflt", "pathLimit", "serverLimit", "gf", "failing", "s"},
 			RetTy:   "Nat × Bool × Pay",
 			State:   []irLet{{"status", "Nat", "0"}, {"handled", "Bool", "false"}, {"pay", "Pay", "Pay.unset"}, {"seen", "Pay", "Pay.unset"}},
 			LeanTy:  map[string]string{"GF": "Option Unit", "Ctx": "Unit", "Handler": "Unit", "Mux": "Unit", "Request": "Src"},
@@ -289,7 +289,7 @@ func init() {
 			},
 			Methods: map[string]irCall{"Mux.getGlobalFilter": {Fmt: "gf", Ty: "GF", NArgs: 0}},
 			EffFuncs: map[string]irEffCall{
-				"req.FetchPayload": {NArgs: 1, Pre: []irLet{{"§tmp", "Pay × Err", "(fetchReqIR dflt %[1]s s)"}, {"pay", "Pay", "§tmp.1"}},
+				"req.FetchPayload": {NArgs: 1, Pre: []irLet{{"§tmp", "Pay × Err", "(fetchReqIR dflt %[1]s failing s)"}, {"pay", "Pay", "§tmp.1"}},
 					Fmt: "§tmp.2", Ty: "Err"},
 			},
 			StmtFuncs: map[string]irStmtCall{
@@ -325,8 +325,8 @@ func init() {
 		}
 		ps := &irSpec{
 			Name:    "buildRespIR",
-			Binders: "(dflt poolLimit proxyLimit : Int) (reqMethod : Option String) (err : Err) (s : Src)",
-			BNames:  []string{"dflt", "poolLimit", "proxyLimit", "reqMethod", "err", "s"},
+			Binders: "(dflt poolLimit proxyLimit : Int) (reqMethod : Option String) (err : Err) (failing : Bool) (s : Src)",
+			BNames:  []string{"dflt", "poolLimit", "proxyLimit", "reqMethod", "err", "failing", "s"},
 			RetTy:   "Err × Option Pay × Option Pay",
 			Params:  []irTerm{{"err", "Err"}},
 			State:   []irLet{{"pay", "Pay", "Pay.unset"}, {"spResp", "RespPtr", "none"}, {"outResp", "RespPtr", "none"}},
@@ -340,7 +340,7 @@ func init() {
 			Fields:  map[string]irField{"SpCtx.resp": {Fmt: "spResp", Ty: "RespPtr", State: true}},
 			Methods: map[string]irCall{"RespPtr.IsStream": {Fmt: "(pay == Pay.stream)", Ty: "Bool", NArgs: 0}},
 			EffFuncs: map[string]irEffCall{
-				"resp.FetchPayload": {NArgs: 1, Pre: []irLet{{"§tmp", "Pay × Err", "(fetchRespIR dflt %[1]s reqMethod s)"}, {"pay", "Pay", "§tmp.1"}},
+				"resp.FetchPayload": {NArgs: 1, Pre: []irLet{{"§tmp", "Pay × Err", "(fetchRespIR dflt %[1]s reqMethod failing s)"}, {"pay", "Pay", "§tmp.1"}},
 					Fmt: "§tmp.2", Ty: "Err"},
 			},
 			StmtMethods: map[string]irStmtCall{
